@@ -77,3 +77,19 @@ Proof.
   revert s. induction l as [|x l IH]; simpl; intros s H Hs; [exact Hs|].
   apply IH; [intros st y Hy; apply H; right; exact Hy | apply H; [left; reflexivity | exact Hs]].
 Qed.
+
+(* ---------- byte-string order ---------- *)
+Lemma bcmp_refl a : bcmp a a = Eq.
+Proof. apply bcmp_eq. reflexivity. Qed.
+
+Lemma bcmp_trans_ge a b c : bcmp a b <> Lt -> bcmp b c <> Lt -> bcmp a c <> Lt.
+Proof.
+  revert b c. induction a as [|x a IH]; intros [|y b] [|z c]; simpl; intros H1 H2; try congruence.
+  destruct (N.compare x y) eqn:E1; try congruence.
+  - apply N.compare_eq in E1. subst y. destruct (N.compare x z) eqn:E2; try congruence. eapply IH; eauto.
+  - destruct (N.compare y z) eqn:E2; try congruence.
+    + apply N.compare_eq in E2. subst z. rewrite E1. congruence.
+    + assert (N.compare x z = Gt) as ->; [|congruence].
+      apply N.compare_gt_iff. apply N.compare_gt_iff in E1, E2. lia.
+Qed.
+
